@@ -77,6 +77,7 @@ def run_real(case: dict, via_consumer: bool = False) -> dict:
         """Called right before every action of the thread that the model counts as one step."""
         if case["stop_before"] is not None and state["n"] == case["stop_before"]:
             stop_event.set()
+            state["puts_before_stop"] = sum(1 for a in actions if a == "put")
         state["n"] += 1
         actions.append(name)
 
@@ -232,7 +233,7 @@ def run_real(case: dict, via_consumer: bool = False) -> dict:
             evs.append(q.get())
     return {"events": canon_events(evs), "actions": actions, "bodies": bodies, "stop_set": stop_event.is_set(),
             "limit": control.has_reached_the_failure_limit, "counter": control._failures_counter, "died": err,
-            "phase_status": phase_status}
+            "phase_status": phase_status, "puts_before_stop": state.get("puts_before_stop")}
 
 
 def canon_events(evs) -> list:
@@ -339,7 +340,14 @@ def ref_nesting(evs: list) -> str | None:
     return None
 
 
-def stage(chk, n: int, what: str = "stateful producer") -> dict:
+def scenarios_after_stop(r: dict) -> int:
+    """ScenarioStarted events put after the harness requested the stop."""
+    if r.get("puts_before_stop") is None:
+        return 0
+    return sum(1 for e in r["events"][r["puts_before_stop"]:] if e[0] == "ScS")
+
+
+def stage(chk, n: int, what: str = "stateful producer", c12: bool = False) -> dict:
     """Correspondence real execute_state_machine_loop vs ModelP_C11 + the property's oracles on the real events."""
     rng = chk.rng
     corpus = [c for c in (core.VERIF / "corpus" / "C11").glob("producer_*.json")]
@@ -377,6 +385,13 @@ def stage(chk, n: int, what: str = "stateful producer") -> dict:
         if d is not None:
             bad += 1
             chk.fail(f"{what}: events of the stateful thread are not properly nested: {d}", c)
+        if c12 and not c["via_consumer"]:
+            k = scenarios_after_stop(r)
+            if k > 1 and all(len(steps) > 0 for b in c["behs"] for steps in b["scenarios"]):
+                bad += 1
+                chk.fail(f"{what}: {k} scenarios announced after the stop request", c)
+            elif k == 1:
+                chk.fail(f"{what}: a scenario was announced after the stop request", c, region="stateful_scenario_after_stop")
         if sum(1 for b in r["bodies"] if b) > 1:
             bad += 1
             chk.fail(f"{what}: more than one step executed after the stop was visible", c)
